@@ -1,6 +1,7 @@
 package postprocessor
 
 import (
+	"net/url"
 	"slices"
 
 	"github.com/internetarchive/Zeno/internal/pkg/config"
@@ -91,6 +92,17 @@ func extractAssets(item *models.Item) (assets, outlinks []*models.URL, err error
 				"item", item.GetShortID(), "asset", asset.Raw)
 			assets = slices.Delete(assets, i, i+1)
 			continue // same: skip increment to check the next item now at index i
+		}
+
+		// Case 3: asset is only a host (no path, e.g. https://example.com): the file extension
+		// heuristic mistakes the TLD for an extension and the preprocessor would drop such a
+		// child as a false positive, so the URL would be lost. It is a page: treat it as an outlink.
+		if parsed, err := url.Parse(asset.Raw); err == nil && parsed.IsAbs() && parsed.Host != "" &&
+			(parsed.Path == "" || parsed.Path == "/") && parsed.RawQuery == "" {
+			logger.Debug("asset is only a host, moving it to the outlinks", "item", item.GetShortID(), "asset", asset.Raw)
+			outlinks = append(outlinks, asset)
+			assets = slices.Delete(assets, i, i+1)
+			continue
 		}
 
 		// Nothing to delete → move to next item
